@@ -354,6 +354,57 @@ static std::vector<ClassHooks> g_classes;
 inline int g_combos = 0, g_comboFails = 0, g_comboRoundsMax = 60;
 template<class T>
 static void runCombos(const char *cls);
+// every registered getter of the class as shown text: "reports the same field values" also means that a field nobody set does not
+// appear as set after the round trip (cross-talk between fields that serialize alike)
+template<class T>
+static QStringList snapshot(const T &o)
+{
+    QStringList out;
+    for (auto &f : fieldsOf<T>()) out << f.got(o);
+    return out;
+}
+// fields whose value is derived from another one when not given (not cross-talk)
+struct Derived {
+    const char *cls, *field, *from, *why;
+};
+static const Derived DERIVED[] = {
+    { "QXmppVCardIq", "setPhotoType", "setPhoto", "the MIME type is guessed from the image data when none was set" },
+};
+// fields that change when the *prepared* object of a state goes through serialize -> parse with nothing else set (defaults the parser fills in,
+// namespaces the harness lends to namespace-less fragments): not judged in that state. nullopt = the prepared object alone does not round-trip
+template<class T, class Prep>
+static std::optional<std::vector<std::string>> baselineChanges(Prep prep)
+{
+    T o {};
+    g_nsOverride.clear();
+    prep(o);
+    const QStringList before = snapshot(o);
+    QDomDocument doc;
+    bool wrapped;
+    if (!toDom(serializeAny(o), doc, wrapped)) return std::nullopt;
+    auto o2 = parseAny<T>(doc.documentElement());
+    if (!o2) return std::nullopt;
+    std::vector<std::string> out;
+    auto &all = fieldsOf<T>();
+    for (size_t i = 0; i < all.size(); i++)
+        if (all[i].got(*o2) != before[int(i)]) out.push_back(all[i].name);
+    return out;
+}
+template<class T>
+static QString untouchedChanged(const QStringList &before, const T &after, const std::vector<std::string> &touched, const char *cls = "")
+{
+    auto &all = fieldsOf<T>();
+    for (size_t i = 0; i < all.size() && i < size_t(before.size()); i++) {
+        if (std::find(touched.begin(), touched.end(), all[i].name) != touched.end()) continue;
+        bool derived = false;
+        for (const auto &d : DERIVED)
+            if (qstrcmp(d.cls, cls) == 0 && all[i].name == d.field) derived = true;
+        if (derived) continue;
+        const QString now = all[i].got(after);
+        if (now != before[int(i)]) return QString::fromStdString(all[i].name) + u": "_s + before[int(i)].left(60) + u" -> "_s + now.left(60);
+    }
+    return {};
+}
 template<class T>
 static void registerClass(const char *cls)
 {
@@ -553,6 +604,7 @@ static void runCombos(const char *cls)
         for (auto &f : all)
             if (f.okValues.count(stateName) && !f.discriminator) live.push_back(&f);
         if (live.size() < 2) continue;
+        const auto baseline = baselineChanges<T>(prep);
         const int rounds = int(qMin<size_t>(size_t(g_comboRoundsMax), 6 + live.size() * 3));
         for (int k = 0; k < rounds; k++) {
             // subset: pairs, triples, half, all
@@ -576,6 +628,9 @@ static void runCombos(const char *cls)
             if (!buildable) continue;
             tried++;
             g_combos++;
+            const QStringList before = snapshot(o);
+            std::vector<std::string> touched = baseline.value_or(std::vector<std::string> {});
+            for (auto *f : pick) touched.push_back(f->name);
             const QByteArray xml = serializeAny(o);
             QDomDocument doc;
             bool wrapped;
@@ -588,6 +643,12 @@ static void runCombos(const char *cls)
                         lost = QString::fromStdString(pick[i]->name);
                         problem = u"value-lost: set "_s + pick[i]->shown(val[i]) + u", after the round trip "_s + pick[i]->got(*o2);
                     }
+                if (problem.isEmpty() && baseline) {
+                    if (const QString ch = untouchedChanged(before, *o2, touched, cls); !ch.isEmpty()) {
+                        lost = ch.section(u':', 0, 0);
+                        problem = u"(a field that was not set changed) "_s + ch;
+                    }
+                }
                 if (problem.isEmpty()) {
                     const QByteArray xml2 = serializeAny(*o2);
                     QDomDocument doc2;
@@ -655,6 +716,7 @@ static void runObject(const char *cls, const char *setter, const char *xname, co
                 g_nsOverride.clear();
                 prep(o);
                 set(o, in);
+                const QStringList before = snapshot(o);
                 const QByteArray xml = serializeAny(o);
                 QDomDocument doc;
                 bool wrapped;
@@ -671,6 +733,12 @@ static void runObject(const char *cls, const char *setter, const char *xname, co
                     b.sort();
                     got = b.join(u" ; ");
                     ok = a == b;
+                    if (const auto baseline = baselineChanges<T>(prep); ok && baseline) {
+                        if (const QString ch = untouchedChanged(before, *o2, *baseline, cls); !ch.isEmpty()) {
+                            ok = false;
+                            got = u"(a field that was not set changed) "_s + ch;
+                        }
+                    }
                     if (ok) {
                         const QByteArray xml2 = serializeAny(*o2);
                         QDomDocument doc2;
@@ -682,7 +750,7 @@ static void runObject(const char *cls, const char *setter, const char *xname, co
                     }
                 }
                 if (i == 0 && count == 1) {
-                    live = ok || got.startsWith(u"(serializes differently");
+                    live = ok || got.startsWith(u"(serializes differently") || got.startsWith(u"(a field that was not set");
                     if (!live) {
                         rec["probe_xml"] = QString::fromUtf8(xml.left(600));
                         rec["probe_got"] = got.left(300);
